@@ -201,6 +201,12 @@ func cellFromCellBlock(b []byte) (*pb.Cell, uint32, error) {
 	}
 
 	kvLen := binary.BigEndian.Uint32(b[0:4])
+	if uint64(len(b)) < uint64(kvLen)+4 {
+		// (compared as uint64: where int has 32 bits a huge length turns
+		// negative in the check below and passes it)
+		return nil, 0, fmt.Errorf(
+			"buffer is too small: expected %d, got %d", uint64(kvLen)+4, len(b))
+	}
 	if len(b) < int(kvLen)+4 {
 		return nil, 0, fmt.Errorf(
 			"buffer is too small: expected %d, got %d", int(kvLen)+4, len(b))
